@@ -13,6 +13,7 @@
   (they succeed and keep the table uniform) without any exclusion.
 -/
 import BlocV.Proofs.Lemmas.Containers
+import BlocV.Proofs.Lemmas.ContainersRefine
 
 namespace BlocV.C09
 open BlocV BlocV.Spec
@@ -449,6 +450,33 @@ example : UniformIn onlyIS (ti1 [.int 0]) ∧ Safe onlyIS (ti1 [.int 0]) nullOps
     UniformIn onlyIS (run (ti1 [.int 0]) nullOps) :=
   ⟨by decide, nullOps_safe, by decide, (uniform_preserved_partial onlyIS inj_onlyIS nullOps _ (by decide) nullOps_safe).1⟩
 
+/-- **uniform_preserved** with the conclusion in plain `Uniform` (monotonicity `uniformP P v → uniform v`,
+`uniformIn_uniform`): along every safe run the variable and every returned value are uniform. The hypotheses stay those of
+`uniform_preserved_partial` — they cannot be dropped (`uniform_preserved_fails`). -/
+theorem uniform_preserved_plain (P : List Ty → Bool) (hinj : Inj P) (ops : List Op) (x : Val)
+    (hx : UniformIn P x) (hs : Safe P x ops) :
+    Uniform (run x ops) ∧
+    (∀ (pre : List Op) (op : Op) (post : List Op), ops = pre ++ op :: post →
+      Uniform (run x pre) ∧ (∀ r x', stepRes (run x pre) op = .ok (r, x') → Uniform r ∧ Uniform x')) := by
+  obtain ⟨h1, h2⟩ := uniform_preserved_partial P hinj ops x hx hs
+  refine ⟨uniformIn_uniform P _ h1, ?_⟩
+  intro pre op post hsplit
+  obtain ⟨a, b, _⟩ := h2 pre op post hsplit
+  refine ⟨uniformIn_uniform P _ a, ?_⟩
+  intro r x' he
+  obtain ⟨hr, hrun⟩ := b r x' he
+  refine ⟨uniformIn_uniform P _ hr, ?_⟩
+  have : UniformIn P (run x (pre ++ [op])) := by
+    have hsub : ops = (pre ++ [op]) ++ post := by simp [hsplit]
+    cases post with
+    | nil => rw [hsub, List.append_nil] at h1; exact h1
+    | cons q post' => exact (h2 (pre ++ [op]) q post' (by simp [hsplit])).1
+  rw [hrun] at this
+  exact uniformIn_uniform P _ this
+
+example : Uniform (run (ti1 [.int 0]) nullOps) :=
+  (uniform_preserved_plain onlyIS inj_onlyIS nullOps _ (by decide) nullOps_safe).1
+
 /-- The unrestricted statement is false: a uniform start and uniform arguments do not suffice
 (witnesses: hash collision; level mixing). -/
 theorem uniform_preserved_fails :
@@ -578,6 +606,1266 @@ theorem item_index_contract (decl : List Ty) (items : List Val) (hlen : decl.len
     simp [itemAtV, Val.isNull, hlen, h]
   · intro idx h
     simp [itemAtV, Val.isNull, hlen, h]
+
+/-! ### Model = Spec: value refinement of the methods on tables -/
+
+theorem canon_tab_parts (t d es) (h : canon (.tab t d es) = true) :
+    canonTy t = true ∧ ∀ e ∈ es, canonTy e.type = true := by
+  simp only [canon, Val.type, Bool.and_eq_true, List.all_eq_true] at h
+  exact h
+
+/-- the type of an element of a uniform canonical table of non-tuples is the table's element type -/
+theorem elem_type_eq (P) (t d es) (old : Val) (i : Nat) (hx : UniformIn P (.tab t d es)) (hcx : canon (.tab t d es) = true)
+    (hold : es[i]? = some old) (hnt : t.major ≠ .tup) : old.type = tyOfETy (elemETy t d) := by
+  obtain ⟨_, _, hes⟩ := tab_parts P t d es hx
+  have hold' := uniformAll_getElem? P _ es _ old hes hold
+  obtain ⟨a1, a2, a3⟩ := type_of_ety P old t d hnt hold'.1 hold'.2
+  rw [tyOfETy_elem_nontup t d hnt]
+  have hco := (canon_tab_parts t d es hcx).2 old (List.mem_of_getElem? hold)
+  simp only [canonTy, beq_iff_eq] at hco
+  exact Ty.ext' _ _ a1 (by rw [hco, a2]) a3
+
+/-- **put_refines** (Model = Spec). `t.put(p, x)` on a uniform table, for EVERY position value `p` and EVERY uniform
+element argument `x` outside the level-mixing region (hash collisions are excluded by `Inj P`): the model's outcome is the
+specification's — the table with element `p` replaced by `x` (converted / as the typed null it denotes) where the Spec says
+`ok` / `either`, the index error for a null or out-of-range position, a refusal where the Spec refuses. -/
+theorem put_refines (P) (hinj : Inj P) (t : Ty) (d : List Ty) (es : List Val) (p x : Val) (c : Bool)
+    (hx : UniformIn P (.tab t d es)) (hcx : canon (.tab t d es) = true)
+    (hp : UniformIn P p) (ha : UniformIn P x) (hca : canonTy x.type = true)
+    (hl : KF.levelBug t x = false) :
+    Sat (mPut (.tab t d es) p x c) (Spec.tabPut t d es p x) := by
+  obtain ⟨hh, hpd, hes⟩ := tab_parts P t d es hx
+  have hct := (canon_tab_parts t d es hcx).1
+  cases hpos : Spec.pos p es.length with
+  | error e =>
+    have := put_index_contract P t d es p x c e hp hpos
+    unfold Spec.tabPut; rw [hpos]; exact this
+  | ok i =>
+    obtain ⟨pi, rfl, h0, h1, rfl⟩ := pos_ok p _ _ hpos
+    have hlt : pi.toInt.toNat < es.length := by omega
+    obtain ⟨old, hold⟩ : ∃ old, es[pi.toInt.toNat]? = some old := ⟨es[pi.toInt.toNat], List.getElem?_eq_getElem hlt⟩
+    have rel := classify_fit P hinj .put t d x old.type hh hpd hct ha hca hl
+      (elem_type_eq P t d es old _ hx hcx hold) (fun _ _ _ => rfl)
+    rw [mPut_tab_ok t d es pi x c old h0 h1 hold]
+    unfold Spec.tabPut
+    rw [hpos]
+    simp only
+    cases hf : fit (elemETy t d) x with
+    | exact v =>
+      rw [hf] at rel; simp only [SlotRel] at rel
+      cases hig : ignoredNull x with
+      | true =>
+        rw [hig] at rel; rw [rel]
+        right; exact ⟨_, _, rfl⟩
+      | false =>
+        rw [hig] at rel; rw [rel]
+        show _ = _
+        simp only [Bool.false_eq_true, ↓reduceIte]
+        rw [listPut_eq_set es _ v hlt]
+    | conv v =>
+      rw [hf] at rel; simp only [SlotRel] at rel
+      rw [rel.2]
+      left
+      simp only
+      rw [listPut_eq_set es _ v hlt]
+    | bad =>
+      rw [hf] at rel; simp only [SlotRel] at rel
+      obtain ⟨_, c', x', hr⟩ := rel
+      rw [hr]
+      exact ⟨_, _, rfl⟩
+    | no =>
+      rw [hf] at rel; simp only [SlotRel] at rel
+      rcases rel with hr | ⟨_, hr⟩ <;> rw [hr] <;> exact ⟨_, _, rfl⟩
+
+example : Sat (mPut (ti1 [.int 0, .int 5]) (.int 1) (.num 0x4004000000000000) false)
+    (Spec.tabPut { major := .int, level := 1 } [] [.int 0, .int 5] (.int 1) (.num 0x4004000000000000)) :=
+  put_refines onlyIS inj_onlyIS _ _ _ _ _ _ (by decide) (by decide) (by decide) (by decide) (by decide) (by decide)
+
+/-- **insert_refines** (Model = Spec). `t.insert(p, x)` for every position value and every uniform argument outside the
+level-mixing region: one element (converted / typed null) or the elements of a table of the receiver's own type — in
+REVERSE order, UNDETERMINED BY DOCUMENTATION = what the code does — are spliced in at `p` (0 ≤ p ≤ n); a null table / null
+tuple leaves the receiver as it is; index error for a null or out-of-range position; refusal of a non-fitting element. -/
+theorem insert_refines (P) (hinj : Inj P) (t : Ty) (d : List Ty) (es : List Val) (p x : Val) (c : Bool)
+    (hx : UniformIn P (.tab t d es)) (hcx : canon (.tab t d es) = true)
+    (hp : UniformIn P p) (ha : UniformIn P x) (hca : canonTy x.type = true)
+    (hl : KF.levelBug t x = false) :
+    Sat (mInsert (.tab t d es) p x c) (Spec.tabInsert (.tab t d es) t d es p x) := by
+  have hct := (canon_tab_parts t d es hcx).1
+  cases hpos : Spec.pos p (es.length + 1) with
+  | error e =>
+    have := insert_index_contract P t d es p x c e hp hpos
+    unfold Spec.tabInsert; rw [hpos]; exact this
+  | ok i =>
+    obtain ⟨pi, rfl, h0, h1, rfl⟩ := pos_ok p _ _ hpos
+    have rel := classify_addOf P hinj .insert (by decide) t d es x hx hct ha hca hl
+    rw [mInsert_tab_ok t d es pi x c h0 h1]
+    unfold Spec.tabInsert
+    rw [hpos]
+    simp only
+    cases hadd : addOf (.tab t d es) t d x with
+    | nothing =>
+      rw [hadd] at rel; simp only [AddRel] at rel
+      rcases rel with h | h <;> rw [h]
+      · left; rfl
+      · right; exact ⟨_, _, rfl⟩
+    | reject e =>
+      rw [hadd] at rel; simp only [AddRel] at rel
+      obtain ⟨he, rel⟩ := rel
+      rcases rel with h | ⟨c', a', h⟩ <;> rw [h] <;> simp only <;>
+        rcases he with rfl | rfl <;> exact ⟨_, _, rfl⟩
+    | elems vs sure =>
+      rw [hadd] at rel
+      cases sure with
+      | true =>
+        simp only [AddRel] at rel
+        rcases rel with h | ⟨v, rfl, h⟩ <;> rw [h] <;> simp [Sat, listIns]
+      | false =>
+        simp only [AddRel] at rel
+        obtain ⟨v, rfl, h⟩ := rel
+        rw [h]; simp [Sat, listIns]
+
+example : Sat (mInsert (ti1 [.int 0, .int 5]) (.int 1) (ti1 [.int 7, .int 8]) false)
+    (Spec.tabInsert (ti1 [.int 0, .int 5]) { major := .int, level := 1 } [] [.int 0, .int 5] (.int 1) (ti1 [.int 7, .int 8])) :=
+  insert_refines onlyIS inj_onlyIS _ _ _ _ _ _ (by decide) (by decide) (by decide) (by decide) (by decide) (by decide)
+/-- … and what that outcome is: the inserted table appears reversed -/
+example : mInsert (ti1 [.int 0, .int 5]) (.int 1) (ti1 [.int 7, .int 8]) false =
+    .ok (ti1 [.int 0, .int 8, .int 7, .int 5], ti1 [.int 0, .int 8, .int 7, .int 5]) := by rfl
+
+/-- **concat_refines** (Model = Spec). `t.concat(x)` for every uniform argument outside the level-mixing region: the element
+(converted / typed null) or the elements of a table of the receiver's own type are appended, in order; a null table / null
+tuple leaves the receiver as it is; a non-fitting argument is refused. -/
+theorem concat_refines (P) (hinj : Inj P) (t : Ty) (d : List Ty) (es : List Val) (x : Val) (c : Bool)
+    (hx : UniformIn P (.tab t d es)) (hcx : canon (.tab t d es) = true)
+    (ha : UniformIn P x) (hca : canonTy x.type = true) (hl : KF.levelBug t x = false) :
+    Sat (mConcat (.tab t d es) x c) (Spec.tabConcat (.tab t d es) t d es x) := by
+  have hct := (canon_tab_parts t d es hcx).1
+  have rel := classify_addOf P hinj .concat (by decide) t d es x hx hct ha hca hl
+  rw [mConcat_tab t d es x c (tab_level_pos P t d es hx)]
+  unfold Spec.tabConcat
+  cases hadd : addOf (.tab t d es) t d x with
+  | nothing =>
+    rw [hadd] at rel; simp only [AddRel] at rel
+    rcases rel with h | h <;> rw [h]
+    · left; rfl
+    · right; exact ⟨_, _, rfl⟩
+  | reject e =>
+    rw [hadd] at rel; simp only [AddRel] at rel
+    obtain ⟨he, rel⟩ := rel
+    rcases rel with h | ⟨c', a', h⟩ <;> rw [h] <;> simp only <;>
+      rcases he with rfl | rfl <;> exact ⟨_, _, rfl⟩
+  | elems vs sure =>
+    rw [hadd] at rel
+    cases sure with
+    | true =>
+      simp only [AddRel] at rel
+      rcases rel with h | ⟨v, rfl, h⟩ <;> rw [h] <;> simp [Sat]
+    | false =>
+      simp only [AddRel] at rel
+      obtain ⟨v, rfl, h⟩ := rel
+      rw [h]; simp [Sat]
+
+example : Sat (mConcat (td1 [.num 0]) (.int 3) false)
+    (Spec.tabConcat (td1 [.num 0]) { major := .num, level := 1 } [] [.num 0] (.int 3)) :=
+  concat_refines onlyIS inj_onlyIS _ _ _ _ _ (by decide) (by decide) (by decide) (by decide) (by decide)
+
+/-- **at / delete / count refine the Spec** on every table and every position value (`at_index_contract` and
+`delete_index_contract` are already stated against the full Spec outcome: element / erased list / index error). -/
+theorem at_delete_count_refine (P) (t : Ty) (d : List Ty) (es : List Val) (p : Val) (c : Bool) (hp : UniformIn P p) :
+    Sat (mAt (.tab t d es) p) (Spec.tabAt (.tab t d es) es p) ∧
+    Sat (mDelete (.tab t d es) p c) (Spec.tabDelete t d es p) ∧
+    mCount (.tab t d es) = .ok (.int (Int64.ofNat es.length), .tab t d es) :=
+  ⟨at_index_contract P t d es p hp, delete_index_contract P t d es p c hp, rfl⟩
+
+example : Sat (mAt (ti1 [.int 4]) (.int 0)) (.ok (.int 4) (ti1 [.int 4])) := by
+  have := (at_delete_count_refine onlyIS { major := .int, level := 1 } [] [.int 4] (.int 0) false (by decide)).1
+  exact this
+
+/-! ### operation sequences against the Spec's list-level run -/
+
+/-- the Spec's outcome of one operation -/
+def specOp (x : Val) : Op → Option SOut
+  | .mem m args => Spec.specMember m x args
+  | .set rank a => Spec.specSet x rank a
+
+/-- the variable after a call whose Spec outcome is `o`: the Spec's new receiver, the old one after a refusal, one of
+the two where the Spec leaves the choice (`either`) -/
+def SpecNext (x : Val) (o : SOut) (x' : Val) : Prop :=
+  match o with
+  | .ok _ y => x' = y
+  | .reject _ => x' = x
+  | .either _ y => x' = y ∨ x' = x
+
+/-- a run of the variable that the Spec allows: every step is in the Spec's domain and goes to a receiver the Spec names -/
+inductive SpecRun : Val → List Op → Val → Prop
+  | nil (x : Val) : SpecRun x [] x
+  | cons (x : Val) (op : Op) (ops : List Op) (x' x'' : Val) (o : SOut) :
+      specOp x op = some o → SpecNext x o x' → SpecRun x' ops x'' → SpecRun x (op :: ops) x''
+
+theorem sat_next (x : Val) (op : Op) (o : SOut) (h : Sat (stepRes x op) o) : SpecNext x o (applyOp x op) := by
+  unfold applyOp
+  cases o with
+  | ok r y => simp only [Sat] at h; rw [h]; rfl
+  | reject e =>
+    cases e <;> simp only [Sat] at h
+    · rw [h]; rfl
+    · obtain ⟨c, a, h⟩ := h; rw [h]; rfl
+    · rw [h]; rfl
+    · obtain ⟨c, a, h⟩ := h; rw [h]; rfl
+  | either r y =>
+    simp only [Sat] at h
+    rcases h with h | ⟨c, a, h⟩ <;> rw [h]
+    · left; rfl
+    · right; rfl
+
+def arityOk : Member → List Val → Bool
+  | .at, [_] | .delete, [_] | .concat, [_] | .put, [_, _] | .insert, [_, _] | .count, [] => true
+  | _, _ => false
+
+/-- a member call with the right number of arguments, uniform arguments in the image of the implementation, outside the
+level-mixing region of a table of type `t` -/
+def OpGood (P : List Ty → Bool) (t : Ty) : Op → Prop
+  | .mem m args => arityOk m args = true ∧ (∀ a ∈ args, uniformP P a = true ∧ canon a = true) ∧
+      (∀ a, KF.elemArg m args = some a → KF.levelBug t a = false)
+  | .set _ _ => False
+
+theorem canon_type (a : Val) (h : canon a = true) : canonTy a.type = true := by
+  simp only [canon, Bool.and_eq_true] at h; exact h.1
+
+/-- one step: the call is in the Spec's domain, the model's outcome is the Spec's, and the receiver the Spec names is a
+table with the same header and canonical minors -/
+theorem step_refines (P) (hinj : Inj P) (t : Ty) (d : List Ty) (es : List Val) (op : Op)
+    (hx : UniformIn P (.tab t d es)) (hcx : canon (.tab t d es) = true) (hg : OpGood P t op) :
+    ∃ o, specOp (.tab t d es) op = some o ∧ Sat (stepRes (.tab t d es) op) o ∧ OutShape t d o := by
+  have huni : uniform (.tab t d es) = true := uniformIn_uniform P _ hx
+  have hes := (canon_tab_parts t d es hcx).2
+  cases op with
+  | set r a => exact absurd hg id
+  | mem m args =>
+    obtain ⟨har, hargs, hreg⟩ := hg
+    cases m with
+    | «at» =>
+      match args, har with
+      | [p], _ =>
+        refine ⟨Spec.tabAt (.tab t d es) es p, by simp [specOp, Spec.specMember, Spec.specAt, huni], ?_, tabAt_shape t d es p hes⟩
+        exact at_index_contract P t d es p (hargs p (by simp)).1
+    | delete =>
+      match args, har with
+      | [p], _ =>
+        refine ⟨Spec.tabDelete t d es p, by simp [specOp, Spec.specMember, Spec.specDelete, huni], ?_, tabDelete_shape t d es p hes⟩
+        exact delete_index_contract P t d es p false (hargs p (by simp)).1
+    | count =>
+      match args, har with
+      | [], _ =>
+        exact ⟨.ok (.int (Int64.ofNat es.length)) (.tab t d es), by simp [specOp, Spec.specMember, Spec.specCount, huni], rfl, es, rfl, hes⟩
+    | put =>
+      match args, har with
+      | [p, x], _ =>
+        have hp := hargs p (by simp)
+        have hxx := hargs x (by simp)
+        refine ⟨Spec.tabPut t d es p x, by simp [specOp, Spec.specMember, Spec.specPut, huni], ?_, tabPut_shape t d es p x hes (canon_type x hxx.2)⟩
+        exact put_refines P hinj t d es p x false hx hcx hp.1 hxx.1 (canon_type x hxx.2) (hreg x rfl)
+    | insert =>
+      match args, har with
+      | [p, x], _ =>
+        have hp := hargs p (by simp)
+        have hxx := hargs x (by simp)
+        refine ⟨Spec.tabInsert (.tab t d es) t d es p x, by simp [specOp, Spec.specMember, Spec.specInsert, huni], ?_, tabInsert_shape t d es p x hes hxx.2⟩
+        exact insert_refines P hinj t d es p x false hx hcx hp.1 hxx.1 (canon_type x hxx.2) (hreg x rfl)
+    | concat =>
+      match args, har with
+      | [x], _ =>
+        have hxx := hargs x (by simp)
+        refine ⟨Spec.tabConcat (.tab t d es) t d es x, by simp [specOp, Spec.specMember, Spec.specConcat, huni], ?_, tabConcat_shape t d es x hes hxx.2⟩
+        exact concat_refines P hinj t d es x false hx hcx hxx.1 (canon_type x hxx.2) (hreg x rfl)
+
+theorem opGood_opOk (P) (t d es op) (hg : OpGood P t op) : OpOk P (.tab t d es) op := by
+  cases op with
+  | set r a => exact absurd hg id
+  | mem m args =>
+    obtain ⟨_, hargs, hreg⟩ := hg
+    refine ⟨fun a ha => (hargs a ha).1, ?_⟩
+    intro t' d' es' a he hel
+    injection he with h1 _ _
+    subst h1
+    exact hreg a hel
+
+/-- one step keeps the header, the uniformity and the canonical minors -/
+theorem step_invariant (P) (hinj : Inj P) (t : Ty) (d : List Ty) (es : List Val) (op : Op)
+    (hx : UniformIn P (.tab t d es)) (hcx : canon (.tab t d es) = true) (hg : OpGood P t op) :
+    ∃ es', applyOp (.tab t d es) op = .tab t d es' ∧ UniformIn P (.tab t d es') ∧ canon (.tab t d es') = true := by
+  obtain ⟨o, _, hsat, hshape⟩ := step_refines P hinj t d es op hx hcx hg
+  have hnext := sat_next _ op o hsat
+  have hct := (canon_tab_parts t d es hcx).1
+  have huni : UniformIn P (applyOp (.tab t d es) op) := by
+    unfold applyOp
+    split
+    · rename_i r x' he
+      exact (step_preserves P hinj _ op _ _ hx (opGood_opOk P t d es op hg) he).2
+    · exact hx
+  have same : ∃ es', applyOp (.tab t d es) op = .tab t d es' ∧ ∀ e ∈ es', canonTy e.type = true := by
+    cases o with
+    | ok r y =>
+      obtain ⟨es', hy, hc⟩ := hshape
+      exact ⟨es', by rw [← hy]; exact hnext, hc⟩
+    | reject e => exact ⟨es, hnext, (canon_tab_parts t d es hcx).2⟩
+    | either r y =>
+      obtain ⟨es', hy, hc⟩ := hshape
+      rcases hnext with h | h
+      · exact ⟨es', by rw [← hy]; exact h, hc⟩
+      · exact ⟨es, h, (canon_tab_parts t d es hcx).2⟩
+  obtain ⟨es', he, hc⟩ := same
+  refine ⟨es', he, by rw [← he]; exact huni, ?_⟩
+  simp only [canon, Val.type, Bool.and_eq_true, List.all_eq_true]
+  exact ⟨hct, hc⟩
+
+/-- **ops_refine_spec** — the op-SEQUENCE theorem against the Spec. For every list of member calls (at / put / insert /
+delete / concat / count, any position values, any uniform arguments) applied to a uniform table, outside the recorded
+finding regions (C09.mix.level: `OpGood`; hash collisions: `Inj P`): the whole run is a run the specification allows
+(`SpecRun`: each step's receiver is the one the Spec's list-level function names — `List.set`, take/drop splice, append,
+`List.eraseIdx` —, the old receiver after a refusal), and before every step the variable is a table with the SAME header,
+plainly `Uniform` (monotonicity `uniformIn_uniform`), and the model's outcome of the step — result value, receiver, error
+class — is the Spec's (`Sat`). By induction over the operation list. -/
+theorem ops_refine_spec (P : List Ty → Bool) (hinj : Inj P) (t : Ty) (d : List Ty) :
+    ∀ (ops : List Op) (es : List Val), UniformIn P (.tab t d es) → canon (.tab t d es) = true →
+      (∀ op ∈ ops, OpGood P t op) →
+      SpecRun (.tab t d es) ops (run (.tab t d es) ops) ∧
+      (∃ es', run (.tab t d es) ops = .tab t d es' ∧ Uniform (.tab t d es')) ∧
+      (∀ (pre : List Op) (op : Op) (post : List Op), ops = pre ++ op :: post →
+        ∃ es' o, run (.tab t d es) pre = .tab t d es' ∧ Uniform (.tab t d es') ∧ UniformIn P (.tab t d es') ∧
+          specOp (.tab t d es') op = some o ∧ Sat (stepRes (.tab t d es') op) o) := by
+  intro ops
+  induction ops with
+  | nil =>
+    intro es hx _ _
+    refine ⟨.nil _, ⟨es, rfl, uniformIn_uniform P _ hx⟩, ?_⟩
+    intro pre op post h; simp at h
+  | cons op ops ih =>
+    intro es hx hcx hg
+    have hgo := hg op (by simp)
+    obtain ⟨o, hspec, hsat, _⟩ := step_refines P hinj t d es op hx hcx hgo
+    obtain ⟨es1, he1, hx1, hcx1⟩ := step_invariant P hinj t d es op hx hcx hgo
+    obtain ⟨ih1, ih2, ih3⟩ := ih es1 hx1 hcx1 (fun op' h => hg op' (by simp [h]))
+    have hrun : ∀ l, run (.tab t d es) (op :: l) = run (.tab t d es1) l := by
+      intro l; simp [run, he1]
+    refine ⟨?_, ?_, ?_⟩
+    · rw [hrun]
+      exact .cons _ op ops _ _ o hspec (by rw [← he1]; exact sat_next _ op o hsat) ih1
+    · rw [hrun]; exact ih2
+    · intro pre op' post hsplit
+      cases pre with
+      | nil =>
+        simp at hsplit
+        obtain ⟨rfl, rfl⟩ := hsplit
+        exact ⟨es, o, rfl, uniformIn_uniform P _ hx, hx, hspec, hsat⟩
+      | cons q pre' =>
+        simp at hsplit
+        obtain ⟨rfl, hsplit⟩ := hsplit
+        rw [hrun]
+        exact ih3 pre' op' post hsplit
+
+/-- the hypotheses are satisfiable by a non-trivial run: insert a table (reversed), put a decimal (converted), a rejected
+delete, concat of an untyped null -/
+def refOps : List Op := [.mem .insert [.int 1, ti1 [.int 7, .int 8]], .mem .put [.int 0, .num 0x4004000000000000],
+  .mem .delete [.int 9], .mem .concat [.null Ty.none]]
+
+theorem refOps_good : ∀ op ∈ refOps, OpGood onlyIS { major := .int, level := 1 } op := by
+  intro op h
+  simp [refOps] at h
+  rcases h with rfl | rfl | rfl | rfl
+  all_goals
+    refine ⟨rfl, ?_, ?_⟩
+    · intro a ha; simp at ha
+      first
+        | (rcases ha with rfl | rfl <;> exact ⟨by decide, by decide⟩)
+        | (subst ha; exact ⟨by decide, by decide⟩)
+    · intro a he; simp [KF.elemArg] at he
+      try (subst he; decide)
+
+example : (run (ti1 [.int 0, .int 5]) refOps == ti1 [.int 2, .int 8, .int 7, .int 5, .null Ty.int]) = true ∧
+    SpecRun (ti1 [.int 0, .int 5]) refOps (run (ti1 [.int 0, .int 5]) refOps) :=
+  ⟨by decide, (ops_refine_spec onlyIS inj_onlyIS _ _ refOps _ (by decide) (by decide) refOps_good).1⟩
+
+/-! ### Model = Spec: strings and bytes (sequences of 8-bit character codes) -/
+
+/-- the Spec's `code` never answers `index` -/
+theorem code_not_index (x : Val) : Spec.code x ≠ .error .index := by
+  unfold Spec.code
+  split
+  · split <;> simp
+  · simp
+  · simp
+
+/-- **seq_put_refines**. `s.put(p, c)` on a string variable and on bytes, for every position value and every argument:
+the character at `p` is replaced by the code `c` (0..255), OUT_OF_RANGE for another integer, the index error for a null or
+out-of-range position, a refusal for a null or non-integer code. -/
+theorem seq_put_refines (P) (s : Bytes) (p x : Val) (c : Bool) (hp : UniformIn P p) (hx : UniformIn P x) :
+    Sat (mPut (.str s) p x false) (Spec.seqPut Val.str s p x) ∧
+    Sat (mPut (.raw s) p x c) (Spec.seqPut Val.raw s p x) := by
+  constructor
+  · have hr0 : (Val.str s).isNull = false := rfl
+    unfold mPut Spec.seqPut
+    rcases asInt_of_pos P p s.length hp with ⟨i, rfl, hn, hi, hs⟩ | ⟨hn, hs⟩ | ⟨hn, hi, hs⟩
+    · rw [hs]
+      simp only [hr0, hn, Bool.or_self, Bool.false_eq_true, ↓reduceIte, hi, inRange, idxOf]
+      by_cases hr : 0 ≤ i.toInt ∧ i.toInt < (s.length : Int)
+      · have hlt : i.toInt.toNat < s.length := by omega
+        simp only [hr, and_self, decide_true, Bool.not_true, Bool.false_eq_true, ↓reduceIte]
+        cases hnx : x.isNull with
+        | false =>
+          have hc := charArg_code P x hx hnx
+          simp only [Bool.false_eq_true, ↓reduceIte]
+          cases hcode : Spec.code x with
+          | ok b =>
+            rw [hcode] at hc; simp only at hc
+            rw [hc]
+            simp only [Sat]
+            rw [listPut_eq_set s _ b hlt]
+          | error e =>
+            rw [hcode] at hc
+            cases e with
+            | range => simp only at hc; rw [hc]; rfl
+            | index => simp only at hc; obtain ⟨c', a', hc⟩ := hc; rw [hc]; simp [Spec.code] at hcode; split at hcode <;> (try split at hcode) <;> simp at hcode
+            | type => simp only at hc; obtain ⟨c', a', hc⟩ := hc; rw [hc]; exact ⟨_, _, rfl⟩
+            | any => simp only at hc; obtain ⟨c', a', hc⟩ := hc; rw [hc]; exact ⟨_, _, rfl⟩
+        | true =>
+          obtain ⟨ty, rfl⟩ : ∃ ty, x = .null ty := by
+            cases x <;> simp [Val.isNull] at hnx
+            exact ⟨_, rfl⟩
+          simp [Val.isNull, Spec.code, Sat, tyMismatch]
+      · simp [hr, Sat, idxErr]
+    · rw [hs]; simp [hn, hr0, Sat, idxErr]
+    · rw [hs]; simp [hn, hi, hr0, Sat]
+  · have hr0 : (Val.raw s).isNull = false := rfl
+    unfold mPut Spec.seqPut
+    rcases asInt_of_pos P p s.length hp with ⟨i, rfl, hn, hi, hs⟩ | ⟨hn, hs⟩ | ⟨hn, hi, hs⟩
+    · rw [hs]
+      simp only [hr0, hn, Bool.or_self, Bool.false_eq_true, ↓reduceIte, hi, inRange, idxOf]
+      by_cases hr : 0 ≤ i.toInt ∧ i.toInt < (s.length : Int)
+      · have hlt : i.toInt.toNat < s.length := by omega
+        simp only [hr, and_self, decide_true, Bool.not_true, Bool.false_eq_true, ↓reduceIte]
+        cases hnx : x.isNull with
+        | false =>
+          have hc := charArg_code P x hx hnx
+          simp only [Bool.false_eq_true, ↓reduceIte]
+          cases hcode : Spec.code x with
+          | ok b =>
+            rw [hcode] at hc; simp only at hc
+            rw [hc]
+            simp only [Sat]
+            rw [listPut_eq_set s _ b hlt]
+          | error e =>
+            rw [hcode] at hc
+            cases e with
+            | range => simp only at hc; rw [hc]; rfl
+            | index => simp only at hc; obtain ⟨c', a', hc⟩ := hc; rw [hc]; simp [Spec.code] at hcode; split at hcode <;> (try split at hcode) <;> simp at hcode
+            | type => simp only at hc; obtain ⟨c', a', hc⟩ := hc; rw [hc]; exact ⟨_, _, rfl⟩
+            | any => simp only at hc; obtain ⟨c', a', hc⟩ := hc; rw [hc]; exact ⟨_, _, rfl⟩
+        | true =>
+          obtain ⟨ty, rfl⟩ : ∃ ty, x = .null ty := by
+            cases x <;> simp [Val.isNull] at hnx
+            exact ⟨_, rfl⟩
+          simp [Val.isNull, Spec.code, Sat, tyMismatch]
+      · simp [hr, Sat, idxErr]
+    · rw [hs]; simp [hn, hr0, Sat, idxErr]
+    · rw [hs]; simp [hn, hi, hr0, Sat]
+
+example : mPut (.str [97, 98]) (.int 1) (.int 65) false = .ok (.str [97, 65], .str [97, 65]) ∧
+    Spec.seqPut Val.str [97, 98] (.int 1) (.int 65) = .ok (.str [97, 65]) (.str [97, 65]) := by
+  constructor <;> rfl
+
+theorem str_insert_inrange (P) (s : Bytes) (pi : Int64) (x : Val) (hx : UniformIn P x)
+    (h0 : 0 ≤ pi.toInt) (h1 : pi.toInt ≤ (s.length : Int)) :
+    Sat (mInsert (.str s) (.int pi) x false) (Spec.seqInsert (.str s) Val.str false s (.int pi) x) := by
+  have hp : inRangeIns pi s.length = true := by simp [inRangeIns, h0, h1]
+  have hpos : Spec.pos (.int pi) (s.length + 1) = .ok pi.toInt.toNat := by
+    have : 0 ≤ pi.toInt ∧ pi.toInt < ((s.length + 1 : Nat) : Int) := ⟨h0, by push_cast; omega⟩
+    simp only [Spec.pos, this, and_self, ↓reduceIte]
+  have e : (Val.int pi).asInt = .ok pi := rfl
+  unfold mInsert Spec.seqInsert
+  rw [hpos, e]
+  simp only [Val.isNull, Bool.or_self, Bool.false_eq_true, ↓reduceIte, hp, Bool.not_true, idxOf]
+  cases x with
+  | null ty => left; rfl
+  | str b => simp [Val.type, Ty.str, Val.asStr, Spec.seqArg, Sat, listIns]
+  | int i =>
+    simp only [Val.type, Ty.int, Spec.seqArg, Spec.code]
+    rw [charArg_int]
+    by_cases hc : 0 ≤ i.toInt ∧ i.toInt ≤ 255
+    · simp [hc, Sat, listIns]
+    · simp [hc, Sat]
+  | tab at_ ad vs =>
+    have hl := tab_level_pos P at_ ad vs hx
+    have hl' : at_.level ≠ 0 := by omega
+    cases hmaj : at_.major <;> simp [Val.type, Spec.seqArg, Sat, hmaj, Val.asStr, charArg, Val.asInt, hl']
+  | tup ad items => simp [Val.type, makeTupleTy_major, Spec.seqArg, Sat]
+  | raw b => simp [Val.type, Ty.raw, Spec.seqArg, Sat]
+  | bool b => simp [Val.type, Ty.bool, Spec.seqArg, Sat]
+  | num b => simp [Val.type, Ty.num, Spec.seqArg, Sat]
+  | imag a b => simp [Val.type, Ty.imag, Spec.seqArg, Sat]
+  | obj a b => simp [Val.type, Spec.seqArg, Sat]
+
+theorem raw_insert_inrange (P) (s : Bytes) (pi : Int64) (x : Val) (c : Bool) (hx : UniformIn P x)
+    (h0 : 0 ≤ pi.toInt) (h1 : pi.toInt ≤ (s.length : Int)) :
+    Sat (mInsert (.raw s) (.int pi) x c) (Spec.seqInsert (.raw s) Val.raw true s (.int pi) x) := by
+  have hp : inRangeIns pi s.length = true := by simp [inRangeIns, h0, h1]
+  have hpos : Spec.pos (.int pi) (s.length + 1) = .ok pi.toInt.toNat := by
+    have : 0 ≤ pi.toInt ∧ pi.toInt < ((s.length + 1 : Nat) : Int) := ⟨h0, by push_cast; omega⟩
+    simp only [Spec.pos, this, and_self, ↓reduceIte]
+  have e : (Val.int pi).asInt = .ok pi := rfl
+  unfold mInsert insRaw Spec.seqInsert
+  rw [hpos, e]
+  simp only [Val.isNull, Bool.or_self, Bool.false_eq_true, ↓reduceIte, hp, Bool.not_true, idxOf]
+  cases x with
+  | null ty => left; rfl
+  | str b => simp [Val.type, Ty.str, Val.asStr, Spec.seqArg, Sat, listIns]
+  | raw b => simp [Val.type, Ty.raw, Val.asRaw, Spec.seqArg, Sat, listIns]
+  | int i =>
+    simp only [Val.type, Ty.int, Spec.seqArg, Spec.code]
+    rw [charArg_int]
+    by_cases hc : 0 ≤ i.toInt ∧ i.toInt ≤ 255
+    · simp [hc, Sat, listIns]
+    · simp [hc, Sat]
+  | tab at_ ad vs =>
+    have hl := tab_level_pos P at_ ad vs hx
+    have hl' : at_.level ≠ 0 := by omega
+    cases hmaj : at_.major <;> simp [Val.type, Spec.seqArg, Sat, hmaj, Val.asStr, Val.asRaw, charArg, Val.asInt, hl']
+  | tup ad items => simp [Val.type, makeTupleTy_major, Spec.seqArg, Sat]
+  | bool b => simp [Val.type, Ty.bool, Spec.seqArg, Sat]
+  | num b => simp [Val.type, Ty.num, Spec.seqArg, Sat]
+  | imag a b => simp [Val.type, Ty.imag, Spec.seqArg, Sat]
+  | obj a b => simp [Val.type, Spec.seqArg, Sat]
+
+/-- **seq_insert_refines**. `s.insert(p, x)` on a string variable / bytes, every position value, every argument: a string
+(bytes receivers: also bytes) or one character code is spliced in at `p` (0 ≤ p ≤ n), any null leaves the receiver as it
+is, OUT_OF_RANGE for a code outside 0..255, the index error for a null / out-of-range position, a refusal otherwise. -/
+theorem seq_insert_refines (P) (s : Bytes) (p x : Val) (c : Bool) (hp : UniformIn P p) (hx : UniformIn P x) :
+    Sat (mInsert (.str s) p x false) (Spec.seqInsert (.str s) Val.str false s p x) ∧
+    Sat (mInsert (.raw s) p x c) (Spec.seqInsert (.raw s) Val.raw true s p x) := by
+  have bad : ∀ (recv : Val) (mk : Bytes → Val) (isRaw : Bool) (e : SErr), Spec.pos p (s.length + 1) = .error e →
+      Spec.seqInsert recv mk isRaw s p x = .reject e := by
+    intro recv mk isRaw e h; unfold Spec.seqInsert; rw [h]
+  rcases asInt_of_pos P p (s.length + 1) hp with ⟨i, rfl, hn, hi, hs⟩ | ⟨hn, hs⟩ | ⟨hn, hi, hs⟩
+  · by_cases hr : 0 ≤ i.toInt ∧ i.toInt < ((s.length + 1 : Nat) : Int)
+    · have h1 : i.toInt ≤ (s.length : Int) := by have := hr.2; push_cast at this; omega
+      exact ⟨str_insert_inrange P s i x hx hr.1 h1, raw_insert_inrange P s i x c hx hr.1 h1⟩
+    · rw [if_neg hr] at hs
+      rw [bad _ _ _ _ hs, bad _ _ _ _ hs]
+      have hq : inRangeIns i s.length = false := by
+        simp only [inRangeIns, decide_eq_false_iff_not]; intro h; apply hr; push_cast; omega
+      constructor
+      · unfold mInsert; simp [Val.isNull, hi, hq, Sat, idxErr]
+      · unfold mInsert insRaw; simp [Val.isNull, hi, hq, Sat, idxErr]
+  · rw [bad _ _ _ _ hs, bad _ _ _ _ hs]
+    constructor <;> (unfold mInsert; simp [hn, Sat, idxErr])
+  · rw [bad _ _ _ _ hs, bad _ _ _ _ hs]
+    have h1 : (Val.str s).isNull = false := rfl
+    have h2 : (Val.raw s).isNull = false := rfl
+    constructor
+    · unfold mInsert; simp [hn, hi, h1, Sat]
+    · unfold mInsert insRaw; simp [hn, hi, h2, Sat]
+
+example : mInsert (.str [97, 98]) (.int 1) (.str [120, 121]) false = .ok (.str [97, 120, 121, 98], .str [97, 120, 121, 98]) := by rfl
+
+/-- **seq_delete_refines**. `s.delete(p)` on a string variable / bytes for every position value. -/
+theorem seq_delete_refines (P) (s : Bytes) (p : Val) (c : Bool) (hp : UniformIn P p) :
+    Sat (mDelete (.str s) p false) (Spec.seqDelete Val.str s p) ∧
+    Sat (mDelete (.raw s) p c) (Spec.seqDelete Val.raw s p) := by
+  have h1 : (Val.str s).isNull = false := rfl
+  have h2 : (Val.raw s).isNull = false := rfl
+  unfold mDelete Spec.seqDelete
+  rcases asInt_of_pos P p s.length hp with ⟨i, rfl, hn, hi, hs⟩ | ⟨hn, hs⟩ | ⟨hn, hi, hs⟩
+  · rw [hs]
+    simp only [Val.isNull, Bool.or_self, Bool.false_eq_true, ↓reduceIte, hi, inRange, idxOf]
+    by_cases hr : 0 ≤ i.toInt ∧ i.toInt < (s.length : Int)
+    · simp [hr, Sat, listDel_eq_eraseIdx]
+    · simp [hr, Sat, idxErr]
+  · rw [hs]; simp [hn, h1, h2, Sat, idxErr]
+  · rw [hs]; simp [hn, hi, h1, h2, Sat]
+
+/-- **seq_concat_refines**. `s.concat(x)` on a non-null string variable / bytes for every argument: a string (bytes
+receivers: also bytes) or one character code is appended, any null leaves the receiver as it is, OUT_OF_RANGE for a code
+outside 0..255, a refusal otherwise (bytes given to a string: NOT_TABCHAR by fall-through). -/
+theorem seq_concat_refines (P) (s : Bytes) (x : Val) (c : Bool) (hx : UniformIn P x) :
+    Sat (mConcat (.str s) x false) (Spec.seqConcat (.str s) Val.str false s x) ∧
+    Sat (mConcat (.raw s) x c) (Spec.seqConcat (.raw s) Val.raw true s x) := by
+  constructor
+  · unfold mConcat Spec.seqConcat
+    simp only [Val.type, Ty.str, Nat.lt_irrefl, ↓reduceIte, gt_iff_lt]
+    cases x with
+    | null ty => left; rfl
+    | str b => simp [Val.isNull, Val.type, Ty.str, Val.asStr, Spec.seqArg, Sat]
+    | int i =>
+      simp only [Val.isNull, Val.type, Ty.int, Spec.seqArg, Spec.code, Bool.false_eq_true, ↓reduceIte]
+      rw [charArg_int]
+      by_cases hc : 0 ≤ i.toInt ∧ i.toInt ≤ 255
+      · simp [hc, Sat, Val.asStr, Val.type, Ty.str]
+      · simp [hc, Sat]
+    | tab at_ ad vs =>
+      have hl := tab_level_pos P at_ ad vs hx
+      have hl' : at_.level ≠ 0 := by omega
+      cases hmaj : at_.major <;>
+        simp [Val.isNull, Val.type, Spec.seqArg, Sat, hmaj, Val.asStr, Val.asRaw, charArg, Val.asInt, hl', concatRawCase, Ty.str]
+    | tup ad items => simp [Val.isNull, Val.type, makeTupleTy_major, Spec.seqArg, Sat, concatRawCase]
+    | raw b => simp [Val.isNull, Val.type, Ty.raw, Spec.seqArg, Sat, concatRawCase, Val.asRaw, Ty.str]
+    | bool b => simp [Val.isNull, Val.type, Ty.bool, Spec.seqArg, Sat, concatRawCase]
+    | num b => simp [Val.isNull, Val.type, Ty.num, Spec.seqArg, Sat, concatRawCase]
+    | imag a b => simp [Val.isNull, Val.type, Ty.imag, Spec.seqArg, Sat, concatRawCase]
+    | obj a b => simp [Val.isNull, Val.type, Spec.seqArg, Sat, concatRawCase]
+  · unfold mConcat Spec.seqConcat
+    simp only [Val.type, Ty.raw, Nat.lt_irrefl, ↓reduceIte, gt_iff_lt]
+    cases x with
+    | null ty => left; rfl
+    | str b => simp [Val.isNull, Val.type, Ty.str, Val.asStr, Val.asRaw, Ty.raw, Spec.seqArg, Sat, concatRawCase]
+    | raw b => simp [Val.isNull, Val.type, Ty.raw, Val.asRaw, Spec.seqArg, Sat, concatRawCase]
+    | int i =>
+      simp only [Val.isNull, Val.type, Ty.int, Spec.seqArg, Spec.code, Bool.false_eq_true, ↓reduceIte, concatRawCase]
+      rw [charArg_int]
+      by_cases hc : 0 ≤ i.toInt ∧ i.toInt ≤ 255
+      · simp [hc, Sat, Val.asRaw, Val.type, Ty.raw]
+      · simp [hc, Sat]
+    | tab at_ ad vs =>
+      have hl := tab_level_pos P at_ ad vs hx
+      have hl' : at_.level ≠ 0 := by omega
+      cases hmaj : at_.major <;>
+        simp [Val.isNull, Val.type, Spec.seqArg, Sat, hmaj, Val.asStr, Val.asRaw, charArg, Val.asInt, hl', concatRawCase, Ty.raw]
+    | tup ad items => simp [Val.isNull, Val.type, makeTupleTy_major, Spec.seqArg, Sat, concatRawCase]
+    | bool b => simp [Val.isNull, Val.type, Ty.bool, Spec.seqArg, Sat, concatRawCase]
+    | num b => simp [Val.isNull, Val.type, Ty.num, Spec.seqArg, Sat, concatRawCase]
+    | imag a b => simp [Val.isNull, Val.type, Ty.imag, Spec.seqArg, Sat, concatRawCase]
+    | obj a b => simp [Val.isNull, Val.type, Spec.seqArg, Sat, concatRawCase]
+
+example : mConcat (.raw [0]) (.str [97]) false = .ok (.raw [0, 97], .raw [0, 97]) ∧
+    (match mConcat (.str [97]) (.raw [0]) false with | .err c _ => c == Gen.EXC_RT_NOT_TABCHAR | _ => false) = true :=
+  ⟨by rfl, by decide⟩
+
+/-- bytes: `r.at(p)` for every position value (strings: `str_at_index_contract`) -/
+theorem raw_at_refines (P) (s : Bytes) (p : Val) (hp : UniformIn P p) :
+    Sat (mAt (.raw s) p) (Spec.seqAt (.raw s) s p) := by
+  unfold mAt Spec.seqAt
+  have hr : (Val.raw s).isNull = false := rfl
+  rcases asInt_of_pos P p s.length hp with ⟨i, rfl, hn, hi, hs⟩ | ⟨hn, hs⟩ | ⟨hn, hi, hs⟩
+  · rw [hs]
+    simp only [Val.isNull, Bool.or_self, Bool.false_eq_true, ↓reduceIte, hi, inRange, idxOf]
+    by_cases hr : 0 ≤ i.toInt ∧ i.toInt < (s.length : Int)
+    · simp only [hr, and_self, decide_true, ↓reduceIte]
+      cases he : s[i.toInt.toNat]? <;> simp [Sat, idxErr, intOfByte]
+    · simp [hr, Sat, idxErr]
+  · rw [hs]; simp [hn, hr, Sat, idxErr]
+  · rw [hs]; simp [hn, hi, hr, Sat]
+
+/-! ### Model = Spec: tuples (`set@N`, `@N`; ranks are 1-based) -/
+
+theorem setItemV_inrange (decl : List Ty) (items : List Val) (idx : Nat) (x : Val) (dt : Ty) (old : Val)
+    (hl : x.type.level = 0) (hidx : idx < decl.length) (hdt : decl[idx]? = some dt) (hold : items[idx]? = some old) :
+    setItemV (.tup decl items) idx x =
+      (match (if dt == x.type then (.ok (some x) : Res (Option Val)) else mixItem dt x old.type) with
+        | .ok (some v) => .ok (Val.tup decl (listPut items idx v), Val.tup decl (listPut items idx v))
+        | .ok none => tyMismatch
+        | .err c a => .err c a
+        | .haz h => .haz h
+        | .unmodelled => .unmodelled) := by
+  unfold setItemV
+  simp only [Val.isNull, Bool.false_eq_true, ↓reduceIte, hl, bne_self_eq_false, hidx, hdt, hold]
+  by_cases he : (dt == x.type) = true
+  · simp only [he, ↓reduceIte]
+  · simp only [he, Bool.false_eq_true, ↓reduceIte]
+    rfl
+
+/-- **set_refines** (Model = Spec). `u.set@rank(x)` on a uniform tuple, for every rank below 2^32 (larger ranks are refused
+at compile time, `acceptSet`) and every uniform argument: item `rank` (1-based) is replaced by `x` — as it is, as the typed
+null it denotes, or converted int↔decimal (`either`) —, the index error for rank 0 and ranks above the number of items, a
+refusal for a non-fitting value or a table. -/
+theorem set_refines (P) (hinj : Inj P) (decl : List Ty) (items : List Val) (rank : Nat) (x : Val)
+    (hu : UniformIn P (.tup decl items)) (hx : UniformIn P x) (hcx : canonTy x.type = true)
+    (hrank : rank < 4294967296) (hlen : items.length < 4294967295) :
+    ∃ o, Spec.specSet (.tup decl items) rank x = some o ∧ Sat (stepRes (.tup decl items) (.set rank x)) o := by
+  have huni : uniform (.tup decl items) = true := uniformIn_uniform P _ hu
+  have hu' := hu
+  unfold UniformIn at hu'
+  rw [uniformP_tup] at hu'
+  simp only [Bool.and_eq_true, beq_iff_eq] at hu'
+  obtain ⟨⟨⟨hd, hsc⟩, hP⟩, hmap, hall⟩ := hu'
+  have hlen' : decl.length = items.length := by have := congrArg List.length hmap; simpa using this.symm
+  have hstep : stepRes (.tup decl items) (.set rank x) = setItemV (.tup decl items) (itemIndex rank) x := by
+    simp only [stepRes, itemNo_small rank hrank]
+  rw [hstep]
+  unfold Spec.specSet
+  simp only [huni, Bool.not_true, Bool.false_eq_true, ↓reduceIte]
+  by_cases hl : x.type.level = 0
+  · have hl' : (x.type.level != 0) = false := by simp [hl]
+    simp only [hl', Bool.false_eq_true, ↓reduceIte]
+    by_cases hr : 1 ≤ rank ∧ rank ≤ items.length
+    · have hidx : itemIndex rank = rank - 1 := itemIndex_small rank hr.1 hrank
+      have hlt : rank - 1 < decl.length := by omega
+      have hlt' : rank - 1 < items.length := by omega
+      obtain ⟨dt, hdt⟩ : ∃ dt, decl[rank - 1]? = some dt := ⟨_, List.getElem?_eq_getElem hlt⟩
+      obtain ⟨old, hold⟩ : ∃ old, items[rank - 1]? = some old := ⟨_, List.getElem?_eq_getElem hlt'⟩
+      have hold_ty : old.type = dt := by
+        have : (items.map Val.type)[rank - 1]? = some old.type := by simp [hold]
+        rw [hmap, hdt] at this; exact (Option.some.inj this).symm
+      have hdts : scalarTy dt = true := by
+        rw [List.all_eq_true] at hsc
+        exact hsc dt (List.mem_of_getElem? hdt)
+      have hs' := hdts
+      simp only [scalarTy, Bool.and_eq_true, Bool.or_eq_true, beq_iff_eq] at hs'
+      have hnt : dt.major ≠ .tup := by
+        rcases hs'.2 with ⟨_, h⟩ | h
+        · rcases h with ((((h | h) | h) | h) | h) | h <;> rw [h] <;> simp
+        · rw [h]; simp
+      have hnn : dt.major ≠ .none := by
+        rcases hs'.2 with ⟨_, h⟩ | h
+        · rcases h with ((((h | h) | h) | h) | h) | h <;> rw [h] <;> simp
+        · rw [h]; simp
+      have hcan : dt.minor = normMinor dt := by
+        rcases hs'.2 with ⟨h0, h⟩ | h
+        · rw [h0]; unfold normMinor
+          rcases h with ((((h | h) | h) | h) | h) | h <;> rw [h] <;> simp
+        · unfold normMinor; rw [h]; simp
+      -- the item type as the header of a one-dimensional table
+      have hE : elemETy dt.levelUp [] = mkETy dt [] 0 := by
+        unfold elemETy
+        rw [mkETy_nontup _ [] _ (by simpa [Ty.levelUp] using hnt), mkETy_nontup dt [] 0 hnt]
+        simp [Ty.levelUp, normMinor, hs'.1]
+      have hh : headerOk dt.levelUp [] = true := by
+        rw [headerOk_iff]
+        refine ⟨by simp [Ty.levelUp], by simp [Ty.levelUp, hs'.1], by simpa [Ty.levelUp] using hnn, Or.inr ⟨by simpa [Ty.levelUp] using hnt, rfl⟩⟩
+      have hct : canonTy dt.levelUp = true := by
+        simp only [canonTy, beq_iff_eq, Ty.levelUp, normMinor]
+        simpa [normMinor] using hcan
+      have hlb : KF.levelBug dt.levelUp x = false := by
+        simp [KF.levelBug, Ty.levelUp, hs'.1]
+      have hnull : dt.levelUp.major ≠ .tup → old.type = tyOfETy (elemETy dt.levelUp []) := by
+        intro _
+        rw [hE, mkETy_nontup dt [] 0 hnt, hold_ty]
+        exact Ty.ext' _ _ rfl hcan hs'.1
+      have rel := classify_fit P hinj .put dt.levelUp [] x old.type hh (fun h => absurd h (by simpa [Ty.levelUp] using hnt))
+        hct hx hcx hlb hnull (fun _ _ _ => rfl)
+      rw [hE] at rel
+      rw [hidx, setItemV_inrange decl items (rank - 1) x dt old hl hlt hdt hold,
+        setSlot_eq_classify dt x old.type hl hdts]
+      simp only [hr, and_self, ↓reduceIte, hdt]
+      cases hf : fit (mkETy dt [] 0) x with
+      | exact v =>
+        rw [hf] at rel; simp only [SlotRel] at rel
+        cases hig : ignoredNull x with
+        | true =>
+          have := fit_ign_lvl0 (mkETy dt [] 0) x hig hl (by rw [mkETy_nontup dt [] 0 hnt]; exact hnt)
+          rw [this] at hf; simp at hf
+        | false =>
+          rw [hig] at rel; rw [rel]
+          refine ⟨_, rfl, ?_⟩
+          simp only [slotOpt, Bool.false_eq_true, ↓reduceIte, Sat]
+          rw [listPut_eq_set items _ v hlt']
+      | conv v =>
+        rw [hf] at rel; simp only [SlotRel] at rel
+        rw [rel.2]
+        refine ⟨_, rfl, ?_⟩
+        simp only [slotOpt, Sat]
+        left
+        rw [listPut_eq_set items _ v hlt']
+      | bad =>
+        rw [hf] at rel; simp only [SlotRel] at rel
+        obtain ⟨_, c', a', hr'⟩ := rel
+        rw [hr']
+        exact ⟨_, rfl, _, _, rfl⟩
+      | no =>
+        rw [hf] at rel; simp only [SlotRel] at rel
+        rcases rel with hr' | ⟨_, hr'⟩ <;> rw [hr'] <;> exact ⟨_, rfl, _, _, rfl⟩
+    · simp only [hr, ↓reduceIte]
+      refine ⟨_, rfl, ?_⟩
+      have hge : ¬ itemIndex rank < decl.length := by
+        by_cases h0 : rank = 0
+        · subst h0; rw [itemIndex_zero]; omega
+        · rw [itemIndex_small rank (by omega) hrank]; omega
+      simp [setItemV, Val.isNull, hl, hge, Sat, idxErr]
+  · have hl' : (x.type.level != 0) = true := by simpa using hl
+    simp only [hl', ↓reduceIte]
+    refine ⟨_, rfl, ?_⟩
+    simp [setItemV, Val.isNull, hl', Sat]
+
+example : ∃ o, Spec.specSet (tIS 1) 1 (.num 0x4004000000000000) = some o ∧ Sat (stepRes (tIS 1) (.set 1 (.num 0x4004000000000000))) o :=
+  set_refines onlyIS inj_onlyIS _ _ 1 _ (by decide) (by decide) (by decide) (by decide) (by decide)
+example : stepRes (tIS 1) (.set 1 (.num 0x4004000000000000)) = .ok (tIS 2, tIS 2) := by rfl
+
+/-- **item_refines**. `u@rank` on a uniform tuple for every rank below 2^32: item `rank` (1-based), the index error for
+rank 0 and ranks above the number of items. -/
+theorem item_refines (P) (decl : List Ty) (items : List Val) (rank : Nat)
+    (hu : UniformIn P (.tup decl items)) (hrank : rank < 4294967296) (hlen : items.length < 4294967295) :
+    match Spec.specItem (.tup decl items) rank with
+    | some (.ok v _) => itemAtV (.tup decl items) (itemIndex rank) = .ok v
+    | some (.reject _) => itemAtV (.tup decl items) (itemIndex rank) = idxErr
+    | _ => False := by
+  have huni : uniform (.tup decl items) = true := uniformIn_uniform P _ hu
+  have hu' := hu
+  unfold UniformIn at hu'
+  rw [uniformP_tup] at hu'
+  simp only [Bool.and_eq_true, beq_iff_eq] at hu'
+  have hlen' : decl.length = items.length := by have := congrArg List.length hu'.2.1; simpa using this.symm
+  obtain ⟨h1, h2⟩ := item_index_contract decl items hlen'
+  unfold Spec.specItem
+  simp only [huni, Bool.not_true, Bool.false_eq_true, ↓reduceIte]
+  by_cases hr : 1 ≤ rank ∧ rank ≤ items.length
+  · have hidx : itemIndex rank = rank - 1 := itemIndex_small rank hr.1 hrank
+    obtain ⟨v, hv, hm⟩ := h1 (rank - 1) (by omega)
+    simp only [hr, and_self, ↓reduceIte, hv, hidx, hm]
+  · simp only [hr, ↓reduceIte]
+    apply h2
+    by_cases h0 : rank = 0
+    · subst h0; rw [itemIndex_zero]; omega
+    · rw [itemIndex_small rank (by omega) hrank]; omega
+
+/-! ### "a table being traversed by forall cannot change": the parse-time lock -/
+
+/-- **locked ⇒ every mutating member is refused, every non-mutating one is accepted** (the head test of
+`Member{CONCAT,PUT,DELETE,INSERT,SET}Expression::parse`; `at` and `count` have none): for a receiver expression whose
+`symbolId()` is a locked symbol — the variable itself or any chain `t.at(i).…` / `t@N.…` hanging off it. -/
+theorem lock_refuses_mutating (op : MemberOp) (recv : RecvExp) (fl : Nat → Bool) (s : Nat)
+    (hs : recv.symbolId = some s) (hl : fl s = true) :
+    lockRefuses op recv fl = op.mutating ∧
+    (op.mutating = true ↔ op = .m .concat ∨ op = .m .put ∨ op = .m .delete ∨ op = .m .insert ∨ op = .set) := by
+  constructor
+  · simp [lockRefuses, recvLocked, hs, hl]
+  · cases op with
+    | set => simp [MemberOp.mutating]
+    | m m => cases m <;> simp [MemberOp.mutating]
+
+/-- an unlocked receiver, or one without a symbol, is never refused by the lock test -/
+theorem lock_accepts_unlocked (op : MemberOp) (recv : RecvExp) (fl : Nat → Bool)
+    (h : ∀ s, recv.symbolId = some s → fl s = false) : lockRefuses op recv fl = false := by
+  unfold lockRefuses recvLocked
+  cases hs : recv.symbolId with
+  | none => simp
+  | some s => simp [h s hs]
+
+/-- the lock test inside the full compile-time check: with a locked receiver the four mutating methods and `set@` answer
+CONST_VIOLATION whatever the arguments are (once the receiver's static type reaches the built-in members at all); `at` and
+`count` do not look at the flag. -/
+theorem accept_locked (m : Member) (exp : Ty) (args : List Ty) (hd : memberDispatch exp = none) :
+    ((MemberOp.m m).mutating = true → acceptMember m exp args true = some Gen.EXC_PARSE_CONST_VIOLATION_S) ∧
+    ((MemberOp.m m).mutating = false → acceptMember m exp args true = acceptMember m exp args false) ∧
+    (∀ decl rank arg, acceptSet exp decl rank arg true = some Gen.EXC_PARSE_CONST_VIOLATION_S) := by
+  refine ⟨?_, ?_, ?_⟩
+  · intro h
+    cases m <;> simp [MemberOp.mutating] at h <;> simp [acceptMember, hd]
+  · intro h
+    cases m <;> simp [MemberOp.mutating] at h <;> simp [acceptMember, hd]
+  · intro decl rank arg
+    simp [acceptSet, hd]
+
+example : memberDispatch { major := .int, level := 1 } = none := by decide
+example : acceptMember .delete { major := .int, level := 1 } [Ty.int] false = none ∧
+    acceptMember .delete { major := .int, level := 1 } [Ty.int] true = some Gen.EXC_PARSE_CONST_VIOLATION_S := by decide
+
+/-- entering `forall <iter> in <target>` locks the target's symbol and never unlocks another symbol than its own iterator -/
+theorem forallEnter_locks (iter sid : Nat) (fl : Nat → Bool) (h : sid ≠ iter) :
+    forallEnter iter (some sid) fl sid = true ∧
+    (∀ tgt s, s ≠ iter → fl s = true → forallEnter iter tgt fl s = true) ∧
+    forallEnter iter (some sid) fl iter = fl sid := by
+  refine ⟨?_, ?_, ?_⟩
+  · simp [forallEnter, h]
+  · intro tgt s hs hl
+    cases tgt with
+    | none => exact hl
+    | some t => simp only [forallEnter, beq_iff_eq, hs, ↓reduceIte]; split <;> simp [hl]
+  · simp [forallEnter]
+
+mutual
+  /-- an accepted statement leaves every flag as it was (the flags saved by `parse_clause` are restored) -/
+  theorem lockStmt_restores : ∀ (st : LStmt) (fl fl' : Nat → Bool), lockStmt st fl = some fl' → ∀ s, fl' s = fl s
+    | .call op recv, fl, fl', h, s => by
+      simp only [lockStmt] at h
+      split at h
+      · simp at h
+      · simp at h; rw [← h]
+    | .loop iter target body, fl, fl', h, s => by
+      simp only [lockStmt] at h
+      split at h
+      · simp at h
+      · rename_i cur hb
+        simp at h
+        have ih := lockBody_restores body _ cur hb s
+        rw [← h]
+        simp only [forallLeave]
+        split
+        · rename_i e; simp at e; rw [e]
+        · split
+          · rfl
+          · rename_i h1 h2
+            rw [ih]
+            cases ht : target.symbolId with
+            | none => simp [forallEnter]
+            | some t =>
+              have : t ≠ s := by intro e; rw [ht, e] at h2; simp at h2
+              have h1' : s ≠ iter := by simpa using h1
+              simp [forallEnter, h1', Ne.symm this]
+  theorem lockBody_restores : ∀ (body : List LStmt) (fl fl' : Nat → Bool), lockBody body fl = some fl' → ∀ s, fl' s = fl s
+    | [], fl, fl', h, s => by simp [lockBody] at h; rw [← h]
+    | st :: rest, fl, fl', h, s => by
+      simp only [lockBody] at h
+      split at h
+      · simp at h
+      · rename_i fl1 h1
+        rw [lockBody_restores rest fl1 fl' h s, lockStmt_restores st fl fl1 h1 s]
+end
+
+/-- the body contains, at any nesting depth under loops that do not re-use `s` as their iterator, a mutating member call
+on a receiver hanging off the symbol `s` -/
+inductive Touches (s : Nat) : List LStmt → Prop
+  | here (op : MemberOp) (recv : RecvExp) (rest : List LStmt) :
+      op.mutating = true → recv.symbolId = some s → Touches s (.call op recv :: rest)
+  | nested (iter : Nat) (target : RecvExp) (body rest : List LStmt) :
+      iter ≠ s → Touches s body → Touches s (.loop iter target body :: rest)
+  | later (st : LStmt) (rest : List LStmt) : Touches s rest → Touches s (st :: rest)
+
+/-- **a locked table cannot be changed anywhere in the body**: if `s` is locked, every statement list that somewhere
+(directly, in a nested forall over any table, after other statements) calls a mutating member on `s` or on a chain hanging
+off `s` is refused at compile time. -/
+theorem locked_body_refused (s : Nat) : ∀ (body : List LStmt), Touches s body → ∀ (fl : Nat → Bool), fl s = true →
+    lockBody body fl = none := by
+  intro body ht
+  induction ht with
+  | here op recv rest hm hs =>
+    intro fl hl
+    simp [lockBody, lockStmt, lockRefuses, recvLocked, hm, hs, hl]
+  | nested iter target body rest hne _ ih =>
+    intro fl hl
+    have := ih (forallEnter iter target.symbolId fl) ((forallEnter_locks iter s fl (Ne.symm hne)).2.1 _ s (Ne.symm hne) hl)
+    simp [lockBody, lockStmt, this]
+  | later st rest _ ih =>
+    intro fl hl
+    simp only [lockBody]
+    split
+    · rfl
+    · rename_i fl1 h1
+      exact ih fl1 (by rw [lockStmt_restores st fl fl1 h1 s]; exact hl)
+
+/-- **forall_table_cannot_change**: `forall e in t loop <body> end loop` with `e ≠ t` is refused whenever the body touches
+`t`; an accepted forall statement leaves all lock flags as they were. -/
+theorem forall_table_cannot_change (e t : Nat) (body : List LStmt) (fl : Nat → Bool) (hne : t ≠ e) :
+    (Touches t body → lockStmt (.loop e (.var t) body) fl = none) ∧
+    (∀ fl', lockStmt (.loop e (.var t) body) fl = some fl' → ∀ s, fl' s = fl s) := by
+  constructor
+  · intro ht
+    have := locked_body_refused t body ht (forallEnter e (some t) fl) (forallEnter_locks e t fl hne).1
+    simp [lockStmt, RecvExp.symbolId, this]
+  · exact fun fl' h => lockStmt_restores _ fl fl' h
+
+/-- non-vacuity: `forall e in t loop forall f in u loop x = 1; t.at(0).delete(0); end loop; end loop` (symbols t=0, u=1,
+e=2, f=3) is refused; the same body with `u.delete(0)` on the copy is accepted and restores the flags -/
+example : lockStmt (.loop 2 (.var 0) [.loop 3 (.var 1) [.call (.m .count) (.var 0), .call (.m .delete) (.chain (.var 0))]])
+    (fun _ => false) = none :=
+  (forall_table_cannot_change 2 0 _ _ (by decide)).1
+    (.nested 3 (.var 1) _ _ (by decide) (.later _ _ (.here _ _ _ rfl rfl)))
+example : (lockStmt (.loop 2 (.var 0) [.call (.m .delete) (.var 1), .call (.m .concat) (.var 2)]) (fun _ => false)).isSome = true := by
+  decide
+
+/-! ### constructors: `tab(n, x)`, `tup(…)` -/
+
+/-- what `tab_refines` says for one Spec outcome -/
+def TabSat (P : List Ty → Bool) (r : Res Val) : Option SOut → Prop
+  | some (.ok v _) => r = .ok v ∧ UniformIn P v
+  | some (.reject .index) => r = .err Gen.EXC_RT_INDEX_RANGE_S
+  | some (.reject _) => ∃ c a, r = .err c a
+  | some (.either _ _) => False
+  | none => True
+
+/-- **tab_refines** (Model = Spec, and the result is uniform). `tab(n, x)` with a non-null count up to 2^20 and a uniform
+`x` whose declaration does not hash to 0 (C09.tuple.hashZero): the table of `n` copies of `x` one dimension above `x` —
+nested tables (`tab(2, tab(3, 0))`), tables of tuples (header = the tuple's declaration), tables of typed nulls —, and that
+table is uniform; the index error for a negative count; a refusal for an untyped null / the opaque tuple (COMPOUND_OPAQUE)
+and at the dimension limit (`x` of 254 dimensions: OUT_OF_DIMENSION, TYPE_LEVEL_MAX = 255). -/
+theorem tab_refines (P) (n : Int64) (x : Val) (hx : UniformIn P x) (hz : KF.hashZero x = false)
+    (hlv : x.type.level < 255) (hn1 : n.toInt ≤ 1048576) :
+    TabSat P (biTab (m := Res) [.ok (.int n), .ok x]) (Spec.specTab [.int n, x]) := by
+  have huni : uniform x = true := uniformIn_uniform P _ hx
+  unfold Spec.specTab
+  simp only [huni, Bool.not_true, Bool.false_eq_true, ↓reduceIte]
+  by_cases hneg : n.toInt < 0
+  · simp only [hneg, ↓reduceIte, TabSat]
+    exact biTab_neg n x hneg
+  · have h0 : 0 ≤ n.toInt := by omega
+    have hbig : ¬ n.toInt > 1048576 := by omega
+    simp only [hneg, hbig, ↓reduceIte]
+    have scalar : ∀ (v : Val), v.type.level = 0 → v.type.major ≠ .none → v.type.major ≠ .tup →
+        etyOf v = mkETy v.type [] v.type.level → uniformP P v = true →
+        tabHeader v = .ok (v.type.levelUp, []) →
+        TabSat P (biTab (m := Res) [.ok (.int n), .ok v])
+          (some (.ok (.tab v.type.levelUp [] (List.replicate n.toInt.toNat v)) (.tab v.type.levelUp [] (List.replicate n.toInt.toNat v)))) := by
+      intro v hl hnn hnt hety hu hhd
+      have hdown : v.type.levelUp.levelDown = v.type := by cases v.type; simp [Ty.levelUp, Ty.levelDown]
+      refine ⟨biTab_res n v _ _ h0 hn1 hhd hdown.symm (by simp [Ty.levelUp]) (by simp [Ty.levelUp, hl]), ?_⟩
+      apply tab_uniform_build P _ _ v _ _ (fun h => absurd h (by simpa [Ty.levelUp] using hnt)) _ hu
+      · rw [headerOk_iff]
+        exact ⟨by simp [Ty.levelUp], by simp [Ty.levelUp, hl], by simpa [Ty.levelUp] using hnn,
+          Or.inr ⟨by simpa [Ty.levelUp] using hnt, rfl⟩⟩
+      · rw [hety]
+        unfold elemETy
+        rw [mkETy_nontup _ [] _ hnt, mkETy_nontup _ [] _ (by simpa [Ty.levelUp] using hnt)]
+        simp [Ty.levelUp, normMinor]
+    cases x with
+    | bool b => exact scalar (.bool b) rfl (by simp [Val.type, Ty.bool]) (by simp [Val.type, Ty.bool]) rfl hx rfl
+    | int b => exact scalar (.int b) rfl (by simp [Val.type, Ty.int]) (by simp [Val.type, Ty.int]) rfl hx rfl
+    | num b => exact scalar (.num b) rfl (by simp [Val.type, Ty.num]) (by simp [Val.type, Ty.num]) rfl hx rfl
+    | imag a b => exact scalar (.imag a b) rfl (by simp [Val.type, Ty.imag]) (by simp [Val.type, Ty.imag]) rfl hx rfl
+    | str b => exact scalar (.str b) rfl (by simp [Val.type, Ty.str]) (by simp [Val.type, Ty.str]) rfl hx rfl
+    | raw b => exact scalar (.raw b) rfl (by simp [Val.type, Ty.raw]) (by simp [Val.type, Ty.raw]) rfl hx rfl
+    | obj a b => exact scalar (.obj a b) rfl (by simp [Val.type]) (by simp [Val.type]) rfl hx rfl
+    | tup decl items =>
+      have hu := hx
+      unfold UniformIn at hu
+      rw [uniformP_tup] at hu
+      simp only [Bool.and_eq_true] at hu
+      have hd : decl ≠ [] := by have := hu.1.1.1; simpa using this
+      have hmin : (makeTupleTy decl 0).minor ≠ 0 := by
+        have := hz; simp [KF.hashZero, hd] at this; exact this
+      have hhd : tabHeader (.tup decl items) = .ok (makeTupleTy decl 1, decl) := by
+        unfold tabHeader
+        have h1 : ((Val.tup decl items).type.major == Major.none) = false := by simp [Val.type, makeTupleTy_major]
+        have h2 : ((Val.tup decl items).type == ({ major := .tup } : Ty)) = false := by
+          apply beq_eq_false_iff_ne.mpr
+          intro e; apply hmin; have := congrArg Ty.minor e; simpa [Val.type] using this
+        have h3 : ((Val.tup decl items).type.level == Gen.TYPE_LEVEL_MAX - 1) = false := by
+          simp [Val.type, makeTupleTy_level, Gen.TYPE_LEVEL_MAX]
+        simp only [h1, h2, h3, Bool.or_self, Bool.false_eq_true, ↓reduceIte]
+      have hty : (Val.tup decl items).type = (makeTupleTy decl 1).levelDown := by
+        rw [makeTupleTy_levelDown]; rfl
+      refine ⟨biTab_res n _ _ _ h0 hn1 hhd hty (by rw [makeTupleTy_level]; omega) (by rw [makeTupleTy_level]; omega), ?_⟩
+      apply tab_uniform_build P _ _ _ _ _ (fun _ => hu.1.2) _ hx
+      · rw [headerOk_iff]
+        exact ⟨by rw [makeTupleTy_level]; omega, by rw [makeTupleTy_level]; omega, by rw [makeTupleTy_major]; simp,
+          Or.inl ⟨makeTupleTy_major decl 1, hd, by rw [makeTupleTy_level]⟩⟩
+      · show mkETy (makeTupleTy decl 0) decl 0 = elemETy (makeTupleTy decl 1) decl
+        unfold elemETy
+        rw [mkETy_tup _ decl 0 (makeTupleTy_major decl 0) hd, mkETy_tup _ decl _ (makeTupleTy_major decl 1) hd, makeTupleTy_level]
+    | tab t decl es =>
+      obtain ⟨hh, hp, _⟩ := tab_parts P t decl es hx
+      have hh' := (headerOk_iff t decl).1 hh
+      by_cases h254 : t.level ≥ 254
+      · simp only [h254, ↓reduceIte, TabSat]
+        have hl : t.level = 254 := by have := hh'.2.1; omega
+        refine ⟨_, _, biTab_header_err n _ Gen.EXC_RT_OUT_OF_DIMENSION [] h0 hn1 ?_⟩
+        unfold tabHeader
+        have h1 : ((Val.tab t decl es).type.major == Major.none) = false := by simpa [Val.type] using hh'.2.2.1
+        have h2 : ((Val.tab t decl es).type == ({ major := .tup } : Ty)) = false := by
+          apply beq_eq_false_iff_ne.mpr
+          intro e; have := congrArg Ty.level e; simp [Val.type, hl] at this
+        have h3 : ((Val.tab t decl es).type.level == Gen.TYPE_LEVEL_MAX - 1) = true := by
+          simp [Val.type, hl, Gen.TYPE_LEVEL_MAX]
+        simp only [h1, h2, h3, Bool.or_self, Bool.false_eq_true, ↓reduceIte]
+      · simp only [h254, ↓reduceIte]
+        have hhd : tabHeader (.tab t decl es) = .ok (t.levelUp, decl) := by
+          unfold tabHeader
+          have h1 : ((Val.tab t decl es).type.major == Major.none) = false := by simpa [Val.type] using hh'.2.2.1
+          have h2 : ((Val.tab t decl es).type == ({ major := .tup } : Ty)) = false := by
+            apply beq_eq_false_iff_ne.mpr
+            intro e; have := congrArg Ty.level e; simp [Val.type] at this; omega
+          have h3 : ((Val.tab t decl es).type.level == Gen.TYPE_LEVEL_MAX - 1) = false := by
+            simp only [Val.type, Gen.TYPE_LEVEL_MAX, beq_eq_false_iff_ne]; omega
+          simp only [h1, h2, h3, Bool.or_self, Bool.false_eq_true, ↓reduceIte]
+          rcases hh'.2.2.2 with ⟨a1, a2, a3⟩ | ⟨a1, a2⟩
+          · have hm : (t.level + 1) % 256 = t.level + 1 := by omega
+            have : makeTupleTy decl (t.level + 1) = t.levelUp := by
+              rw [a3]; unfold makeTupleTy Ty.levelUp; split <;> simp
+            simp [a1, hm, this]
+          · have : (t.major == Major.tup) = false := by simpa using a1
+            have hlt : t.level < 255 := hlv
+            simp [this, a2, levelUp8_eq t hlt]
+        have hty : (Val.tab t decl es).type = t.levelUp.levelDown := by cases t; simp [Val.type, Ty.levelUp, Ty.levelDown]
+        refine ⟨biTab_res n _ _ _ h0 hn1 hhd hty (by simp [Ty.levelUp]) (by simp only [Ty.levelUp]; omega), ?_⟩
+        apply tab_uniform_build P _ _ _ _ _ (fun h => hp (by simpa [Ty.levelUp] using h)) _ hx
+        · rw [headerOk_iff]
+          refine ⟨by simp [Ty.levelUp], by simp only [Ty.levelUp]; omega, by simpa [Ty.levelUp] using hh'.2.2.1, ?_⟩
+          rcases hh'.2.2.2 with ⟨a1, a2, a3⟩ | ⟨a1, a2⟩
+          · left
+            refine ⟨by simpa [Ty.levelUp] using a1, a2, ?_⟩
+            rw [a3]; unfold makeTupleTy Ty.levelUp; split <;> simp
+          · right; exact ⟨by simpa [Ty.levelUp] using a1, a2⟩
+        · show mkETy t decl t.level = elemETy t.levelUp decl
+          unfold elemETy mkETy
+          simp [Ty.levelUp, normMinor]
+    | null ty =>
+      by_cases hop : ty.major = .none ∨ (ty.major = .tup ∧ ty.minor = 0 ∧ ty.level = 0)
+      · have hc : (ty.major == Major.none || ty.major == Major.tup && ty.minor == 0 && ty.level == 0) = true := by
+          rcases hop with h | ⟨h1, h2, h3⟩ <;> simp [*]
+        simp only [hc, ↓reduceIte, TabSat]
+        refine ⟨_, _, biTab_header_err n _ Gen.EXC_RT_COMPOUND_OPAQUE [] h0 hn1 ?_⟩
+        unfold tabHeader
+        have : ((Val.null ty).type.major == Major.none || (Val.null ty).type == ({ major := .tup } : Ty)) = true := by
+          rcases hop with h | ⟨h1, h2, h3⟩
+          · simp [Val.type, h]
+          · have : ty = ({ major := .tup } : Ty) := Ty.ext' _ _ h1 h2 h3
+            simp [Val.type, this]
+        simp only [this, ↓reduceIte]
+      · have hc : (ty.major == Major.none || ty.major == Major.tup && ty.minor == 0 && ty.level == 0) = false := by
+          apply Bool.eq_false_iff.mpr
+          intro h; apply hop
+          simp only [Bool.or_eq_true, Bool.and_eq_true, beq_iff_eq] at h
+          rcases h with h | ⟨⟨h1, h2⟩, h3⟩
+          · exact Or.inl h
+          · exact Or.inr ⟨h1, h2, h3⟩
+        simp only [hc, Bool.false_eq_true, ↓reduceIte]
+        by_cases htup : ty.major = .tup
+        · simp [htup, TabSat]
+        · have htup' : (ty.major == Major.tup) = false := by simpa using htup
+          simp only [htup', Bool.false_eq_true, ↓reduceIte]
+          have hnn : ty.major ≠ .none := fun h => hop (Or.inl h)
+          have hlv' : ty.level < 255 := hlv
+          by_cases h254 : ty.level ≥ 254
+          · simp only [h254, ↓reduceIte, TabSat]
+            have hl : ty.level = 254 := by omega
+            refine ⟨_, _, biTab_header_err n _ Gen.EXC_RT_OUT_OF_DIMENSION [] h0 hn1 ?_⟩
+            unfold tabHeader
+            have h1 : ((Val.null ty).type.major == Major.none) = false := by simpa [Val.type] using hnn
+            have h2 : ((Val.null ty).type == ({ major := .tup } : Ty)) = false := by
+              apply beq_eq_false_iff_ne.mpr
+              intro e; have := congrArg Ty.major e; simp [Val.type] at this; exact htup this
+            have h3 : ((Val.null ty).type.level == Gen.TYPE_LEVEL_MAX - 1) = true := by
+              simp [Val.type, hl, Gen.TYPE_LEVEL_MAX]
+            simp only [h1, h2, h3, Bool.or_self, Bool.false_eq_true, ↓reduceIte]
+          · simp only [h254, ↓reduceIte]
+            have hhd : tabHeader (.null ty) = .ok (ty.levelUp, []) := by
+              unfold tabHeader
+              have h1 : ((Val.null ty).type.major == Major.none) = false := by simpa [Val.type] using hnn
+              have h2 : ((Val.null ty).type == ({ major := .tup } : Ty)) = false := by
+                apply beq_eq_false_iff_ne.mpr
+                intro e; have := congrArg Ty.major e; simp [Val.type] at this; exact htup this
+              have h3 : ((Val.null ty).type.level == Gen.TYPE_LEVEL_MAX - 1) = false := by
+                simp only [Val.type, Gen.TYPE_LEVEL_MAX, beq_eq_false_iff_ne]; omega
+              simp only [h1, h2, h3, Bool.or_self, Bool.false_eq_true, ↓reduceIte]
+              show Res.ok (levelUp8 ty, []) = _
+              rw [levelUp8_eq ty hlv']
+            have hty : (Val.null ty).type = ty.levelUp.levelDown := by cases ty; simp [Val.type, Ty.levelUp, Ty.levelDown]
+            refine ⟨biTab_res n _ _ _ h0 hn1 hhd hty (by simp [Ty.levelUp]) (by simp only [Ty.levelUp]; omega), ?_⟩
+            apply tab_uniform_build P _ _ _ _ _ (fun h => absurd h (by simpa [Ty.levelUp] using htup)) _ hx
+            · rw [headerOk_iff]
+              exact ⟨by simp [Ty.levelUp], by simp only [Ty.levelUp]; omega, by simpa [Ty.levelUp] using hnn,
+                Or.inr ⟨by simpa [Ty.levelUp] using htup, rfl⟩⟩
+            · show mkETy ty [] ty.level = elemETy ty.levelUp []
+              unfold elemETy
+              rw [mkETy_nontup _ [] _ htup, mkETy_nontup _ [] _ (by simpa [Ty.levelUp] using htup)]
+              simp [Ty.levelUp, normMinor]
+
+/-- nested tables: `tab(2, tab(3, 0))` is the uniform 2 × 3 table of integers -/
+example : biTab (m := Res) [.ok (.int 2), .ok (ti1 [.int 0, .int 0, .int 0])] =
+    .ok (.tab { major := .int, level := 2 } [] [ti1 [.int 0, .int 0, .int 0], ti1 [.int 0, .int 0, .int 0]]) := by rfl
+example : TabSat onlyIS (biTab (m := Res) [.ok (.int 2), .ok (tIS 1)]) (Spec.specTab [.int 2, tIS 1]) :=
+  tab_refines onlyIS 2 (tIS 1) (by decide) (by decide) (by decide) (by decide)
+/-- the level limit: a table of 254 dimensions cannot be nested further (run time), a static type of 255 dimensions is
+refused at compile time -/
+example : (match biTab (m := Res) [.ok (.int 1), .ok (.null { major := .int, level := 254 })] with
+    | .err c _ => c == Gen.EXC_RT_OUT_OF_DIMENSION | _ => false) = true ∧
+    acceptTab [Ty.int, { major := .int, level := 255 }] = some Gen.EXC_PARSE_OUT_OF_DIMENSION := by decide
+
+theorem tupItems_const : ∀ (vs acc : List Val),
+    tupItems (m := Res) (vs.map fun v => Res.ok v) acc =
+      if vs.all (fun v => v.type.major != .none) then .ok (acc ++ vs) else .err Gen.EXC_RT_COMPOUND_OPAQUE := by
+  intro vs
+  induction vs with
+  | nil => intro acc; simp [tupItems, pure]
+  | cons v vs ih =>
+    intro acc
+    simp only [List.map_cons, tupItems, bind, List.all_cons]
+    by_cases h : v.type.major = .none
+    · simp [h, rerr, liftR, liftM, monadLift, MonadLift.monadLift]
+    · have h' : (v.type.major == Major.none) = false := by simpa using h
+      simp only [h', Bool.false_eq_true, ↓reduceIte, ih]
+      simp [h]
+
+/-- **tup_structure**. `tup(v1, …, vn)` (n ≥ 1): the tuple whose declaration is the list of the items' types, in order, with
+exactly the given items — or COMPOUND_OPAQUE when an item has no type (untyped null); when the items are scalars (what the
+compile-time check `acceptTup` demands of the static types: no table, no tuple — tuple-in-tuple is refused —, no pointer) the
+tuple is uniform. -/
+theorem tup_structure (P : List Ty → Bool) (vs : List Val) (hne : vs ≠ []) :
+    ((∀ v ∈ vs, v.type.major ≠ .none) →
+      biTup (m := Res) (vs.map fun v => Res.ok v) = .ok (.tup (vs.map Val.type) vs) ∧
+      ((∀ v ∈ vs, scalarVal v = true) → P (vs.map Val.type) = true → UniformIn P (.tup (vs.map Val.type) vs))) ∧
+    ((∃ v ∈ vs, v.type.major = .none) →
+      biTup (m := Res) (vs.map fun v => Res.ok v) = .err Gen.EXC_RT_COMPOUND_OPAQUE) ∧
+    (∀ args : List Ty, acceptTup args = some Gen.EXC_PARSE_FUNC_ARG_TYPE_S ↔
+      ∃ t ∈ args, t.level > 0 ∨ t.major = .tup ∨ t.major = .ptr) := by
+  have hmap : (vs.map fun v => Res.ok v) ≠ [] := by simpa using hne
+  have hbi : biTup (m := Res) (vs.map fun v => Res.ok v) =
+      (match tupItems (m := Res) (vs.map fun v => Res.ok v) [] with
+        | .ok items => .ok (.tup (items.map Val.type) items)
+        | .err c a => .err c a
+        | .haz h => .haz h
+        | .unmodelled => .unmodelled) := by
+    unfold biTup
+    cases hm : (vs.map fun v => Res.ok v) with
+    | nil => exact absurd hm hmap
+    | cons a b =>
+      simp only [bind, pure]
+      cases tupItems (m := Res) (a :: b) [] <;> rfl
+  refine ⟨?_, ?_, ?_⟩
+  · intro hall
+    have hc : vs.all (fun v => v.type.major != .none) = true := by
+      rw [List.all_eq_true]; intro v hv; simpa using hall v hv
+    refine ⟨by rw [hbi, tupItems_const, hc]; simp, ?_⟩
+    intro hsc hP
+    unfold UniformIn
+    rw [uniformP_tup]
+    simp only [Bool.and_eq_true, beq_iff_eq, List.all_eq_true]
+    refine ⟨⟨⟨by simpa using hne, ?_⟩, hP⟩, trivial, hsc⟩
+    intro t ht
+    simp only [List.mem_map] at ht
+    obtain ⟨v, hv, rfl⟩ := ht
+    have := hsc v hv
+    cases v <;> simp_all [scalarVal]
+  · intro ⟨v, hv, hn⟩
+    have hc : vs.all (fun v => v.type.major != .none) = false := by
+      apply Bool.eq_false_iff.mpr
+      intro h; rw [List.all_eq_true] at h
+      have := h v hv; simp [hn] at this
+    rw [hbi, tupItems_const, hc]; simp
+  · intro args
+    unfold acceptTup
+    constructor
+    · intro h
+      split at h
+      · rename_i hany
+        rw [List.any_eq_true] at hany
+        obtain ⟨t, ht, hc⟩ := hany
+        refine ⟨t, ht, ?_⟩
+        simpa [or_assoc] using hc
+      · simp at h
+    · intro ⟨t, ht, hc⟩
+      have : args.any (fun t => decide (t.level > 0) || t.major == Major.tup || t.major == Major.ptr) = true := by
+        rw [List.any_eq_true]; exact ⟨t, ht, by simpa [or_assoc] using hc⟩
+      simp [this]
+
+example : biTup (m := Res) [.ok (.int 1), .ok (.str [97])] = .ok (tIS 1) := by rfl
+/-- tuple-in-tuple and table-in-tuple are refused at compile time; an untyped null at run time -/
+example : acceptTup [Ty.int, makeTupleTy declIS 0] = some Gen.EXC_PARSE_FUNC_ARG_TYPE_S ∧
+    acceptTup [{ major := .int, level := 1 }] = some Gen.EXC_PARSE_FUNC_ARG_TYPE_S ∧ acceptTup [Ty.int, Ty.str] = none ∧
+    (match biTup (m := Res) [.ok (.int 1), .ok (.null Ty.none)] with
+      | .err c _ => c == Gen.EXC_RT_COMPOUND_OPAQUE | _ => false) = true := by decide
+
+/-- Witness C09.tab.levelWrap (found by this round). The dimension limit TYPE_LEVEL_MAX = 255 is tested by
+`level() == 254` on the path with a non-null count only: `tab(int(), x)` with `x` of 254 dimensions is a null of 255
+dimensions, and `tab(0, that)` passes the equality test, `levelUp()` wraps the `uint8_t` level to 0 and the result is a
+Collection carried by a `Value` of type *integer* (here: a `.tab` whose type has level 0 — not a uniform value; the Spec
+refuses the call). -/
+theorem level_limit_wraps :
+    biTab (m := Res) [.ok (.null Ty.int), .ok (.null { major := .int, level := 254 })] = .ok (.null { major := .int, level := 255 }) ∧
+    biTab (m := Res) [.ok (.int 0), .ok (.null { major := .int, level := 255 })] = .ok (.tab { major := .int, level := 0 } [] []) ∧
+    biTab (m := Res) [.ok (.null Ty.int), .ok (.null { major := .int, level := 255 })] = .ok (.null { major := .int, level := 0 }) ∧
+    (match Spec.specTab [.int 0, .null { major := .int, level := 255 }] with | some (.reject _) => true | _ => false) = true ∧
+    biTab (m := Res) [.ok (.int 2), .ok (.null { major := .int, level := 255 })] =
+      .ok (.tab { major := .int, level := 0 } [] [.null { major := .int, level := 255 }, .null { major := .int, level := 255 }]) ∧
+    uniform (.tab { major := .int, level := 0 } [] []) = false ∧
+    KF.levelWrap [.int 0, .null { major := .int, level := 255 }] = true := by
+  refine ⟨by rfl, by rfl, by rfl, by decide, by rfl, by decide, by decide⟩
+
+/-- Witness C09.tup.nested (found by this round). With opaque static argument types (a function parameter) the compile-time
+refusal of tuple / table items does not apply and `tup(1, <tuple>)` builds a tuple holding a tuple — which the manual
+excludes ("Nesting and table are not allowed") and the Spec refuses; with the static type known the same call is refused. -/
+theorem tup_nesting_accepted :
+    biTup (m := Res) [.ok (.int 1), .ok (tIS 2)] = .ok (.tup [Ty.int, makeTupleTy declIS 0] [.int 1, tIS 2]) ∧
+    uniform (.tup [Ty.int, makeTupleTy declIS 0] [.int 1, tIS 2]) = false ∧
+    (match Spec.specTup [.int 1, tIS 2] with | some (.reject _) => true | _ => false) = true ∧
+    acceptTup [Ty.int, makeTupleTy declIS 0] = some Gen.EXC_PARSE_FUNC_ARG_TYPE_S ∧ acceptTup [Ty.none, Ty.none] = none ∧
+    KF.tupNested [.int 1, tIS 2] = true := by
+  refine ⟨by rfl, by decide, by decide, by decide, by decide, by decide⟩
 
 /-! ### tuples keep their structure -/
 
